@@ -313,6 +313,8 @@ def checkOrd (op : String) (args res : List String) : Verdict :=
        else if inOrd ≠ "1" then .viol "ord-check" "check_order is false right after ensure_order"
        else .ok "keep"
      | _, _, _ => .skip "bad")
+  | "cleaned", [_], [a, b] =>
+    if a = "1" ∧ b = "1" then .ok "cleaned" else .viol "ord-external" s!"external operand of eq/cmp left out of order after the call ({a} {b})"
   | "eqhash", [rs, p, q], [e, hp, hq, c] =>
     (match pRing? rs, pPolyRaw? p, pPolyRaw? q with
      | some (K, _), some p, some q =>
